@@ -5,9 +5,12 @@
 //   RUN seed=<s> strat=<k> script=<text>
 //   <tid> <event ...>            (one line per event; first line is "0 cfg <component> ...")
 //   FAIL <text>                  (C++-side monitor, zero or more)
+//   ALTS [!<pos>;]<pos>:<dec>[/<kind>],...;<pos>:...   (strategy 4 only: alternatives per decision position, verif::Alt;
+//                                 "!pos" = the prefix diverged at pos.  check.py strips the line before the Lean driver)
 //   END status=<ok|deadlock|steplimit> steps=<n> decisions=<d,d,...>
 #pragma once
 #include <cstring>
+#include <sys/wait.h>
 #include <unistd.h>
 
 namespace vclient {
@@ -103,6 +106,22 @@ inline void dump(FILE* out, uint64_t seed, int strat, const Script& sc, const ve
             st += (i ? "+" : "") + std::to_string(r.blocked[i]);
         }
     }
+    if (strat == 4) {
+        std::string a = "ALTS ";
+        if (r.diverged >= 0) {
+            a += "!" + std::to_string(r.diverged) + ";";
+        }
+        int lastpos = -1;
+        for (auto& x : r.alts) {
+            a += (x.pos != lastpos) ? ((lastpos >= 0 ? ";" : "") + std::to_string(x.pos) + ":") : std::string(",");
+            lastpos = x.pos;
+            a += std::to_string(x.dec);
+            if (x.kind != 0) {
+                a += "/" + std::to_string(x.kind);
+            }
+        }
+        fprintf(out, "%s\n", a.c_str());
+    }
     fprintf(out, "END status=%s steps=%ld decisions=", st.c_str(), r.steps);
     for (size_t i = 0; i < r.decisions.size(); ++i) {
         fprintf(out, "%s%d", i ? "," : "", r.decisions[i]);
@@ -135,6 +154,10 @@ inline void after_run()
 }
 
 // usage: client [--seed S] [--runs N] [--strategy K|mix] [--size Z] [--script TEXT] [--replay d,d,..] [--threads T]
+//        client --list-directed            the directed scripts, one per line
+//        client --batch [--seed S]         systematic exploration (checks/dfs.py): one job per stdin line "<script> <d,d,..|->",
+//                                          each run with strategy 4 (prefix + deterministic default) in a forked child, so
+//                                          that a deadlock / step-limit exit or a crash of one job does not end the batch
 inline int client_main(int argc, char** argv, const std::vector<Script>& directed, const Gen& gen, const Exec& exec)
 {
     uint64_t seed = 1;
@@ -144,6 +167,7 @@ inline int client_main(int argc, char** argv, const std::vector<Script>& directe
     std::string script;
     std::vector<int> replay;
     bool list_directed = false;
+    bool batch = false;
     long first = 0;  // index of the first run (a restarted client continues where the last one stopped)
     for (int i = 1; i < argc; ++i) {
         std::string a = argv[i];
@@ -171,6 +195,13 @@ inline int client_main(int argc, char** argv, const std::vector<Script>& directe
             first = atol(nxt().c_str());
         } else if (a == "--directed") {
             list_directed = true;
+        } else if (a == "--list-directed") {
+            for (auto& sc : directed) {
+                printf("%s\n", to_text(sc).c_str());
+            }
+            return 0;
+        } else if (a == "--batch") {
+            batch = true;
         }
     }
     FILE* out = stdout;
@@ -188,6 +219,70 @@ inline int client_main(int argc, char** argv, const std::vector<Script>& directe
         verif::Result r = exec(sc, cfg);
         dump(out, s, strat, sc, r);
     };
+    if (batch) {
+        // the parent never runs a job itself, so it is single-threaded at every fork
+        FILE* errf = tmpfile();
+        char* line = nullptr;
+        size_t cap = 0;
+        ssize_t len;
+        while ((len = getline(&line, &cap, stdin)) > 0) {
+            std::string l(line, size_t(len));
+            while (!l.empty() && (l.back() == '\n' || l.back() == '\r')) {
+                l.pop_back();
+            }
+            auto sp = l.find(' ');
+            if (l.empty() || sp == std::string::npos) {
+                continue;
+            }
+            Script sc = parse(l.substr(0, sp));
+            std::vector<int> prefix;
+            for (auto& d : split(l.substr(sp + 1), ',')) {
+                if (!d.empty() && d != "-") {
+                    prefix.push_back(atoi(d.c_str()));
+                }
+            }
+            fflush(out);
+            if (errf != nullptr) {
+                rewind(errf);
+                if (ftruncate(fileno(errf), 0) != 0) {
+                }
+            }
+            pid_t pid = fork();
+            if (pid == 0) {
+                if (errf != nullptr) {
+                    dup2(fileno(errf), 2);
+                }
+                alarm(60);  // a job that hangs outside the scheduler's control
+                one(seed, 4, sc, prefix);
+                fflush(out);
+                _exit(0);
+            }
+            int st = 0;
+            if (pid < 0 || waitpid(pid, &st, 0) < 0 || !WIFEXITED(st) || WEXITSTATUS(st) != 0) {
+                int rc = pid < 0 ? -1 : (WIFSIGNALED(st) ? -WTERMSIG(st) : WEXITSTATUS(st));
+                fprintf(out, "CRASH rc=%d first=0 done=0\n", rc);
+                if (errf != nullptr) {
+                    // the tail of what the job wrote to stderr
+                    std::vector<std::string> lines;
+                    char buf[1024];
+                    rewind(errf);
+                    while (fgets(buf, sizeof buf, errf) != nullptr) {
+                        lines.emplace_back(buf);
+                    }
+                    for (size_t k = lines.size() > 15 ? lines.size() - 15 : 0; k < lines.size(); ++k) {
+                        std::string t = lines[k];
+                        while (!t.empty() && t.back() == '\n') {
+                            t.pop_back();
+                        }
+                        fprintf(out, "CRASHLOG %s\n", t.c_str());
+                    }
+                }
+                fflush(out);
+            }
+        }
+        free(line);
+        return 0;
+    }
     if (!script.empty()) {
         Script sc = parse(script);
         if (!replay.empty()) {
